@@ -87,13 +87,15 @@ def layerOfJson (j : Json) : Except String Layer := do
     | .ok (.null) => pure none
     | .ok p => pure (some { area := ← getRat p "area", mf := ← getRat p "mf" : PoolInfo })
     | .error _ => pure none
+  let optNat : String → Nat := fun k =>
+    match j.getObjVal? k with
+    | .ok v => (v.getNat?).toOption.getD 0
+    | .error _ => 0
   pure { cls := ← getStr j "cls", kind := kind, qs := qs, fwd := fwd,
          fold := fun ws => match foldTab.find? (fun r => r.1 == ws) with | some r => r.2 | none => [poison],
          useBias := ← getBool j "use_bias", bn := bn, pool := pool,
          succ := ← getNatList j "succ", allow := ← getBool j "allow",
-         dirW := match j.getObjVal? "dir_w" with
-                 | .ok v => (v.getNat?).toOption.getD 0
-                 | .error _ => 0 }
+         dirW := optNat "dir_w", dirWb := optNat "dir_wb", dirQ := optNat "dir_q" }
 
 def envOfJson (j : Json) : Except String Env := do
   let rsqTab ←
@@ -124,9 +126,21 @@ def handle (j : Json) : Except String Json := do
     let n ← getNat j "n"
     let W0 : Nat → List Tensor := fun k => ws.getD k []
     let idx := List.range M.length
+    -- history: before round `rew.round` the user replaces all weights (`set_weights`) by `rew.ws`
+    let rew : Option (Nat × List (List Tensor)) ←
+      match j.getObjVal? "rew" with
+      | .ok (.null) => pure none
+      | .ok r => do
+        let k ← getNat r "round"
+        let ws2 ← (← (← r.getObjVal? "ws").getArr?).toList.mapM tensorsOfJson
+        pure (some (k, ws2))
+      | .error _ => pure none
     let mut W := W0
     let mut outs : Array Json := #[]
-    for _ in [0:n] do
+    for rd in [0:n] do
+      match rew with
+      | some (k, ws2) => if rd == k then W := fun i => ws2.getD i []
+      | none => pure ()
       let st := exportQ env M W
       let sp := modelSparsity env M W
       match st.err with
